@@ -261,6 +261,7 @@ def run(ctx):
     res.exhaustive = ctx.tier == "thorough"
     oracle(ctx, res, stats, ctx.rng(2), ctx.n(14, 120))
     targeted(ctx, res, stats)
+    f5_regression_probe(ctx, res, stats, ctx.n(30, 150))
     res.sample(dict(kind="oracle", outcomes=stats["oracle_outcomes"]))
     res.sample(dict(kind="targeted", outcomes=stats.get("targeted")))
     res.rule = ("B: every single deviation and (thorough: every; quick: a random sample of) pairwise deviations from a valid "
@@ -316,6 +317,33 @@ def targeted(ctx, res, stats):
         res.violations.append(Violation(
             kind, f"variational_gamma({json_kw(kw)}) raised {name}: {detail.get('msg', '')[:80]!r} at {detail.get('where')}",
             dict(kind="targeted", method="variational_gamma", kw=vc.jsonable_kw(kw), ts=gen.ts_to_jsonable(ts1))))
+
+
+def f5_regression_probe(ctx, res, stats, n):
+    """Sparse-mutation inputs from a fixed stream (20 % of them hit F5 before /repo fa21a50) dated with
+    the default options of variational_gamma: `AssertionError: Use fewer rescaling intervals` must not
+    come back."""
+    rng = np.random.default_rng(11)
+    out = stats.setdefault("f5_probe", {})
+    for k in range(n):
+        ts, info = gen.gen_ts(rng, muts_per_edge=float(rng.choice([0.05, 0.2, 1, 3])), trees=int(rng.choice([1, 3, 10])),
+                              n=int(rng.integers(2, 8)))
+        if ts.num_mutations == 0:
+            continue
+        kw = dict(mutation_rate=info["mu"])
+        real, detail = vc.call_date(ts, "variational_gamma", kw)
+        res.evaluations += 1
+        out[real] = out.get(real, 0) + 1
+        res.nontrivial.add(common.canon_key(["f5probe", k]))
+        name = real.split(":")[0]
+        if name in DOCUMENTED or name == "ok":
+            continue
+        kind = classify_internal(name, detail.get("msg", ""), detail.get("where", "?"), kw)
+        stats["internal"][kind] = stats["internal"].get(kind, 0) + 1
+        res.violations.append(Violation(
+            kind, f"variational_gamma with default options on a sparse-mutation input ({ts.num_samples} samples, "
+                  f"{ts.num_trees} trees, {ts.num_mutations} mutations) raised {name}: {detail.get('msg', '')[:80]!r}",
+            dict(kind="oracle", what="f5-probe", method="variational_gamma", kw=vc.jsonable_kw(kw), ts=gen.ts_to_jsonable(ts))))
 
 
 def json_kw(kw):
